@@ -178,6 +178,19 @@ check(
     spec="TaskFilter",
 )
 
+check(
+    "C13",
+    "Function-like spec Team.tla: an operational transcription (folds) of team.load_car / CarLoader.load_car, ElasticsearchInstaller data paths and variables, _provisioner_variables, "
+    "_apply_config (append or copy), delete_pre_bundled_configuration and cleanup, with declarative L1 clauses (BasesInOrderNoDuplicates, AtLeastOneBaseElseError, CarParamsOverrideAll, "
+    "LaterCarOverridesEarlierAndBases, BaseVariablesInOrder, NodeVariablesNotOverridable, SameRelativePath, TextRenderedAndAppended, BinaryVerbatimLastWins, CleanupAllOrNothing); TLC checks "
+    "three input universes exhaustively; each TLC input becomes a REAL team directory (cars/v1/*.ini, config bases with Jinja templates and binary blobs) and stub distribution archive, run "
+    "through the real load_car, ElasticsearchInstaller, BareProvisioner.prepare and provisioner.cleanup; every execution (plus seeded random larger teams) is projected to JSON and validated by TLC.",
+    "Bounds: <= 3 cars, 3 bases, trees of <= 3 files, single-line {{var}} templates, no plugins/hooks/Docker. jinja2, configparser, tarfile, file system trusted. Quick replays a 1/5 sample "
+    "of the TLC inputs, thorough all.",
+    "TLA+ transcription + TLC exhaustive enumeration; state table replayed on real file systems; TLC validation of recorded results",
+    spec="Team",
+)
+
 NOT_YET = "check under construction in this round (specification planned in DESIGN.md §4); not claimed yet"
 
 
